@@ -238,7 +238,8 @@ def pl_dtype(tag):
     import polars as pl
 
     if tag == "datetime64[ns]":
-        return pl.Datetime("ns")
+        # polars' default unit: `is_in`/comparisons against python datetimes are unit-sensitive in polars itself
+        return pl.Datetime("us")
     return getattr(pl, _PL_PHYS[tag])
 
 
